@@ -42,21 +42,21 @@ PROPS["C12"] = dict(
 
 
 PROPS["C01"] = dict(
-    slices=["network", "net_enum", "tour_pos", "tour_mod", "path", "tour_ctor", "sched_guard"],
+    slices=["network", "net_enum", "tour_pos", "tour_mod", "path", "tour_ctor", "sched_guard", "json_writer"],
     witness_family="tour",
-    level_text="Verus proves on the real code: can_reach equals the documented timing rule; Tour::new_allow_invalid returns Ok exactly for node sequences that start at a start depot, end at an end depot, have only activities in between, at least one of them, and are pairwise connectable; replace_start_depot, replace_end_depot, remove and insert_path (given a connected path, which Path::new is proved to establish) preserve that invariant (Tour::wf); successors/predecessors enumerate exactly the connectable nodes. The schedule-level type guard check_receiver_type_compatibility returns true only if every moved node is compatible with the receiver's vehicle type. Tour::new_dummy, the other type guards (spawn / add_path) and the JSON writer are assumptions, not proved",
-    level_note="trusted: vstd, key-model axioms, derived Eq/Ord, the SeqIter shim, to_vec/Option::or/Result::unwrap_or specs, A-fmt; stub: Tour::position_of; A-path (paths handed to insert_path are connected), A-type (compatible_with_vehicle_type guards in schedule/modifications.rs) and A-json are caller-side assumptions",
+    level_text="Verus proves on the real code: can_reach equals the documented timing rule; Tour::new_allow_invalid returns Ok exactly for node sequences that start at a start depot, end at an end depot, have only activities in between, at least one of them, and are pairwise connectable; replace_start_depot, replace_end_depot, remove and insert_path (given a connected path, which Path::new is proved to establish) preserve that invariant (Tour::wf); successors/predecessors enumerate exactly the connectable nodes. The schedule-level type guard check_receiver_type_compatibility returns true only if every moved node is compatible with the receiver's vehicle type. the JSON writer (vehicle_to_json) emits exactly the nodes of the tour it is given, in order, with the nodes' own data. Tour::new_dummy and the other type guards (spawn / add_path) are assumptions, not proved",
+    level_note="trusted: vstd, key-model axioms, derived Eq/Ord, the SeqIter shim, to_vec/Option::or/Result::unwrap_or specs, A-fmt; stub: Tour::position_of; A-path (paths handed to insert_path are connected) and A-type (compatible_with_vehicle_type guards in schedule/modifications.rs) are caller-side assumptions; A-text / A-serde for the writer",
     scope="tour-level feasibility invariant under the constructor and all four modifiers of solution/src/tour",
     assumptions=A_COMMON + A_ITER + [
         "A-path: every path handed to Tour::insert_path of a real vehicle is connected (holds for Path::new and paths cut from real tours; dummy-tour paths rely on the triangle inequality, D9)",
         "A-type: a vehicle only serves segments of its own type rests on the compatible_with_vehicle_type guards at schedule level (not under contract)",
-        "A-json: the JSON writer emits the tour it is given",
+        "A-text / A-serde: text rendering of values and serde_json::to_value are opaque (see C03)",
     ],
 )
 PROPS["C10"] = dict(
-    slices=["network", "tour_pos", "tour_mod", "path", "sched_guard"],
+    slices=["network", "tour_pos", "tour_mod", "path", "sched_guard", "admission"],
     witness_family="tour",
-    level_text="clause 1 (every vehicle tour is a chronological path of connectable nodes from a start depot to an end depot with activities in between): same obligations as C01 on the Tour constructor and modifiers; cycle-membership clause: update_transitions_and_violation_fast keeps every type's rotation cycles well formed w.r.t. the new tours with exactly the new real vehicles of the type as members (under the stated caller-side precondition: no vehicle listed twice); formation/tour agreement, sorted listings and depot limits of whole schedules are NOT decided",
+    level_text="clause 1 (every vehicle tour is a chronological path of connectable nodes from a start depot to an end depot with activities in between): same obligations as C01 on the Tour constructor and modifiers; cycle-membership clause: update_transitions_and_violation_fast keeps every type's rotation cycles well formed w.r.t. the new tours with exactly the new real vehicles of the type as members (under the stated caller-side precondition: no vehicle listed twice); formation, track and depot limits: the admission checks vehicle_replacement_in_train_formation and can_depot_spawn_vehicle_custom_usage are exact (same obligations as C02); formation/tour agreement and sorted listings of whole schedules are NOT decided",
     level_note="same trusted base and caller-side assumptions as C01",
     scope="Tour::wf established by new_allow_invalid and preserved by replace_start_depot / replace_end_depot / remove / insert_path",
     assumptions=A_COMMON + A_ITER + ["A-path, A-type as for C01", "schedule-level invariants (formations, listings, depot usage, cycles) not under contract"],
@@ -70,18 +70,24 @@ PROPS["C02"] = dict(
     assumptions=A_COMMON + ["A-stub: VehicleTypes::get returns the stored type", "A-lib: rs_graph::mcf::network_simplex returns a circulation within the edge bounds; the graph plumbing of solve_for_vehicle_type is pinned by a skeleton hash, not verified", "the stand-in 100 for 'no formation limit' in the flow network is documented behaviour (trips needing more than 100 unlimited vehicles are not fully served by the start solution)"],
 )
 PROPS["C03"] = dict(
-    slices=["json_out"],
+    slices=["json_out", "json_writer"],
     witness_family=None,
-    level_text="one clause only: Verus proves that schedule_dead_head_trip places every dead-head trip inside the gap between the two activities it connects (departure >= arrival of the predecessor, arrival <= start of the successor, departure <= arrival); completeness of the JSON and agreement of the two views are NOT decided",
-    level_note="trusted: vstd, rapid_time operator contracts (verified in slice time), Network accessors (verified in slice network)",
-    scope="solution/src/json_serialisation.rs::schedule_dead_head_trip",
-    assumptions=A_COMMON + ["precondition: the two nodes are connectable (holds for consecutive tour nodes by C01) and the instance does not start within one dead-head duration of year 0"],
+    level_text="Verus proves on the verbatim writer functions of solution/src/json_serialisation.rs (schedule_dead_head_trip, vehicle_to_json, fleet_to_json, departure_segments_to_json, maintenance_slots_to_json, depot_usage_to_json, depots_usage_to_json, schedule_to_json): every dead-head trip lies inside the gap between the two activities it connects; a vehicle's itinerary lists exactly the service nodes and maintenance nodes of its tour, in tour order, each with the node's own id, origin, destination and times, and its dead-head trips are exactly the legs whose locations differ; the trip perspective lists every service node / maintenance slot of the network's index lists once, with the node's own data and the schedule's train formation of that node; depot loads are one entry per depot of the depot table and spawning type with the number of vehicles spawned there; the document is assembled from exactly these parts. That the stored train formation of a node equals the set of vehicles whose tour contains it (the two views agree) is an invariant of Schedule (C10) and NOT decided here; arrival = departure + duration is a property of the input loader (Network::new copies the times) and not decided",
+    level_note="trusted: vstd, rapid_time operator contracts (verified in slice time), Network accessors (verified in slice network), A-text (to_string / String + &str / as_iso render the named value), A-serde (serde_json::to_value keeps the struct), SeqIter stubs for the repository's iterators, A-index (Network's per-type lists enumerate the service / maintenance nodes exactly once)",
+    scope="solution/src/json_serialisation.rs: all writer functions",
+    assumptions=A_COMMON + A_ITER + [
+        "precondition: consecutive tour nodes are connectable (C01) and the instance does not start within one dead-head duration of year 0",
+        "A-text: the text of a value (iso time, vehicle id, integer) is an opaque function of the value; contracts say which value is rendered where",
+        "A-serde: serde_json::to_value(ScheduleJson) never fails and encodes the struct it is given",
+        "A-index: Network::service_nodes(vt) / maintenance_nodes list every such node exactly once (built by Network::new; not under contract)",
+        "vehicle_ok / type_ok / segments_pre / slots_pre / usage_pre: parts of schedule validity (C10) needed for panic freedom are preconditions",
+    ],
 )
 PROPS["C09"] = dict(
     kani=True,
     slices=["tour_mod", "formation", "depot_usage", "sched_guard"],
     witness_family="tour",
-    level_text="tour level: Verus proves that compute_*_of_nodes (and hence new_computing / every freshly built tour) equal the from-scratch meaning of the five cached figures written from the property text, and that replace_start_depot, replace_end_depot, remove and insert_path keep all five caches exact (delta formulas = recomputation), including tours through the infinitely distant overflow depot; schedule level: the depot-usage table stays exact for the updated vehicle and untouched for all others under update_depot_usage (from-scratch meaning: spawned/despawned sets per depot and type), depot_balance / total_depot_balance_violation are the sizes' differences resp. their absolute sum, update_tour_and_costs applies exactly the cost delta, update_transitions_and_violation_fast keeps the schedule's maintenance violation equal to the sum of the per-type totals; the other schedule aggregates (costs across whole modifications, unserved passengers, maintenance violation) are NOT decided",
+    level_text="tour level: Verus proves that compute_*_of_nodes (and hence new_computing / every freshly built tour) equal the from-scratch meaning of the five cached figures written from the property text, and that replace_start_depot, replace_end_depot, remove and insert_path keep all five caches exact (delta formulas = recomputation), including tours through the infinitely distant overflow depot; schedule level: the depot-usage table stays exact for the updated vehicle and untouched for all others under update_depot_usage (from-scratch meaning: spawned/despawned sets per depot and type), depot_balance / total_depot_balance_violation are the sizes' differences resp. their absolute sum, update_tour_and_costs applies exactly the cost delta, update_transitions_and_violation_fast and set_next_day_transitions keep the schedule's maintenance violation equal to the sum of the per-type totals; the other schedule aggregates (costs across whole modifications, unserved passengers) are NOT decided",
     level_note="trusted: as C01 plus A-iter sums (Sum for Distance/Duration folds with +; integer sums do not wrap); Network::bounded magnitudes are a stated precondition",
     scope="the five per-tour caches under the constructor and all four modifiers; depot-usage bookkeeping of one vehicle update",
     assumptions=A_COMMON + A_ITER + ["Schedule.{costs, unserved_passengers, maintenance_violation, depot_usage} delta updates are not under contract"],
@@ -110,18 +116,18 @@ PROPS["C15"] = dict(
     ],
 )
 PROPS["C05"] = dict(
-    slices=["transition", "tour_mod", "reassign"],
+    slices=["transition", "tour_mod", "reassign", "json_writer"],
     witness_family="trans",
-    level_text="Verus proves on the real code: the rotation cycles partition the vehicles they were given under every cycle operation (Transition::wf); get_successor_of returns the cyclic successor cycle[(pos+1) % len]; Tour::replace_end_depot changes exactly the end depot; and reassign_end_depots_consistent_with_transitions gives every vehicle's tour the end node of the depot where its cyclic successor starts (a one-vehicle cycle ends where it starts), leaving every start depot, every activity, all other tours, formations and listings unchanged. The JSON emission (fleet_to_json) is an assumption",
+    level_text="Verus proves on the real code: the rotation cycles partition the vehicles they were given under every cycle operation (Transition::wf); get_successor_of returns the cyclic successor cycle[(pos+1) % len]; Tour::replace_end_depot changes exactly the end depot; and reassign_end_depots_consistent_with_transitions gives every vehicle's tour the end node of the depot where its cyclic successor starts (a one-vehicle cycle ends where it starts), leaving every start depot, every activity, all other tours, formations and listings unchanged; fleet_to_json emits the cycles of the type's transition verbatim (every cycle, every member, in order, including empty and one-vehicle cycles) and every vehicle's start and end depot id",
     level_note="trusted: base of C15 and C09; stubs vehicles_iter_all / tour_of / vehicle_type_of; update_depot_usage and update_transitions_and_violation_fast are uninterpreted (they cannot change `tours`); sched_ok (every listed vehicle has a well-formed real tour, a type and a transition containing it; depot table as built by Network::new) is a precondition",
     scope="Transition partition invariant, get_successor_of, Tour::replace_end_depot, Schedule::reassign_end_depots_consistent_with_transitions",
-    assumptions=A_COMMON + ["sched_ok: schedule-level consistency is a precondition (not proved to be preserved by the other schedule modifications)", "A-depots: Network::new builds the depot table (end node of depot d is an EndDepot node with depot_idx d)", "fleet_to_json prints these cycles and depots (A-json)", "A-im"],
+    assumptions=A_COMMON + ["sched_ok: schedule-level consistency is a precondition (not proved to be preserved by the other schedule modifications)", "A-depots: Network::new builds the depot table (end node of depot d is an EndDepot node with depot_idx d)", "A-text / A-serde for the writer (see C03)", "A-im"],
 )
 
 PROPS["C16"] = dict(
-    slices=["pipeline"],
+    slices=["pipeline", "depot_usage"],
     witness_family=None,
-    level_text="data-flow (wiring) proof: with every stage abstracted by an uninterpreted function of its inputs, Verus proves on the verbatim bodies of server::solve_instance and internal::run that the answer is output(evaluate(reassign(set_transitions(S, {vt -> optimise(transition_of(S, vt))})))) with S the local-search result of the depot-improved min-cost-flow solution (or that solution itself without maintenance): no stage's result is discarded or replaced by an earlier one. What each stage computes is NOT decided here",
+    level_text="data-flow (wiring) proof: with every stage abstracted by an uninterpreted function of its inputs, Verus proves on the verbatim bodies of server::solve_instance and internal::run that the answer is output(evaluate(reassign(set_transitions(S, {vt -> optimise(transition_of(S, vt))})))) with S the local-search result of the depot-improved min-cost-flow solution (or that solution itself without maintenance): no stage's result is discarded or replaced by an earlier one; and Schedule::set_next_day_transitions (slice depot_usage) installs exactly the transitions it is given and changes nothing else but the maintenance violation derived from them. What the other stages compute is NOT decided here",
     level_note="trusted: every callee is a stub `r == spec_stage(args)` (signatures extracted from /repo resp. the pinned rapid_solve source), three accessor-undoes-constructor assumptions (A-pipe-proj), A-im, A-iter for-loops, A-clone; println! dropped (R1)",
     scope="server/src/lib.rs::solve_instance, internal/src/lib.rs::run",
     assumptions=["A-pipe: each stage is a function of its arguments (no hidden state), stub signatures as in the real crates", "A-pipe-proj: Objective::evaluate keeps the solution, ScheduleWithInfo::new / TransitionWithInfo::new keep their payload", "A-im, A-iter, A-clone"],
